@@ -29,10 +29,12 @@ What is TRUE OF THE CODE MODEL (`Arnoldi.run`, exact arithmetic) and proved here
   "m+1 orthonormal columns" can only mean `min(m+1, n)` for `m = n`;
 * `C15_padding` — `max_iters ≥ n` gives the entries of the `max_iters = n` run, rest zero;
 * `C15_stopping` — the loop stops at the cap or when all start vectors converged, not before;
-* `C15_eigs_partial` — every eigenpair of the matrix handed to `xnp.eig` lifts to an eigenpair
-  of `A`, under `noPaddingEigs`, `noClip`, `stopExact`;
+* `C15_eigs_partial` — every eigenpair of the matrix handed to `xnp.eig` (the leading block of the
+  executed steps: `trimPaddingInEigs = true` mirrors /repo since the repair of defect (a)) lifts to an
+  eigenpair of `A`, under `noClip`, `stopExact`;
 * `…_clause_needed` — each clause excludes a genuine deviation of the code from the full
-  statement, exhibited on a concrete input.
+  statement, exhibited on a concrete input (known findings `noClip`, `stopExact`);
+* `C15_untrimmed_eigs_spurious_zero` — regression lemma for the former defect (a).
 
 * `C15_eigs_complete` — at `steps = n = dim E` every eigenvalue of `A` is an eigenvalue of that
   matrix (spectra agree as sets; multiplicities are not treated).
@@ -159,20 +161,19 @@ theorem C15_stopping (A : E →ₗ[𝕜] E) (n M : Nat) (tol : ℝ) (vs : List E
   run_stop_exact A n M tol vs
 
 /-- **`arnoldi_eigs` (partial)**: every eigenpair `(μ, y)` of the matrix handed to `xnp.eig`
-gives the eigenpair `(μ, Q y)` of `A` — no spurious eigenvalues.
-Clauses: `noPaddingEigs` (the matrix is the leading block of the executed steps: true for the
-trimmed variant, or when `max_iters` steps were executed), `noClip`, `stopExact` (exact breakdown
-in the last step; automatic at `steps = dim E` by `C15_dimension_cap`). -/
-theorem C15_eigs_partial (trim : Bool) (A : E →ₗ[𝕜] E) (n M : Nat) (tol : ℝ) (tolPos : 0 < tol)
+gives the eigenpair `(μ, Q y)` of `A` — no spurious eigenvalues (the matrix is the leading block of
+the executed steps since the repair of defect (a)).
+Clauses: `noClip`, `stopExact` (exact breakdown in the last step; automatic at `steps = dim E` by
+`C15_dimension_cap`). -/
+theorem C15_eigs_partial (A : E →ₗ[𝕜] E) (n M : Nat) (tol : ℝ) (tolPos : 0 < tol)
     (v : E) (startNonzero : v ≠ 0)
-    (noPaddingEigs : eigsSize trim M (runE A n M tol [v]).idx = (runE A n M tol [v]).idx)
     (noClip : ∀ i, i + 1 < (runE A n M tol [v]).idx →
       tol / 2 ≤ (colAt A M tol v (runE A n M tol [v]).idx).beta i)
     (stopExact : 0 < (runE A n M tol [v]).idx ∧
       (colAt A M tol v (runE A n M tol [v]).idx).beta ((runE A n M tol [v]).idx - 1) = 0)
     (μ : 𝕜) (y : Nat → 𝕜) (hy : ∃ a, a < (runE A n M tol [v]).idx ∧ y a ≠ 0)
     (heig : ∀ l, l < (runE A n M tol [v]).idx → ∑ i ∈ range (runE A n M tol [v]).idx,
-      ((eigsMatrix trim M (runE A n M tol [v]).idx
+      ((eigsMatrix trimPaddingInEigs M (runE A n M tol [v]).idx
         (colAt A M tol v (runE A n M tol [v]).idx)).getD l #[]).getD i 0 * y i = μ * y l) :
     A (∑ i ∈ range (runE A n M tol [v]).idx, y i • (colAt A M tol v (runE A n M tol [v]).idx).q i) =
       μ • ∑ i ∈ range (runE A n M tol [v]).idx, y i • (colAt A M tol v (runE A n M tol [v]).idx).q i ∧
@@ -195,22 +196,21 @@ theorem C15_eigs_partial (trim : Bool) (A : E →ₗ[𝕜] E) (n M : Nat) (tol :
   rw [← heig l hl]
   apply sum_congr rfl
   intro i hi
-  rw [eigsMatrix_get trim s _ l i (by rw [noPaddingEigs]; exact hl)
-    (by rw [noPaddingEigs]; exact mem_range.mp hi)]
+  rw [eigsMatrix_get trimPaddingInEigs s _ l i (show l < s from hl)
+    (show i < s from mem_range.mp hi)]
 
 /-- **`arnoldi_eigs` at full dimension is complete**: when the loop ran `n = dim E` steps (no
 clipping), every eigenpair `(μ, x)` of `A` gives the eigenpair `(μ, Qᴴ x)` of the matrix handed to
 `xnp.eig` — together with `C15_eigs_partial`: the eigenvalues of that matrix are exactly the
-eigenvalues of `A` (as a set).  Clause `noPaddingEigs` as before. -/
-theorem C15_eigs_complete [FiniteDimensional 𝕜 E] (trim : Bool) (A : E →ₗ[𝕜] E) (n M : Nat)
+eigenvalues of `A` (as a set). -/
+theorem C15_eigs_complete [FiniteDimensional 𝕜 E] (A : E →ₗ[𝕜] E) (n M : Nat)
     (tol : ℝ) (tolPos : 0 < tol) (v : E) (startNonzero : v ≠ 0)
     (dimE : Module.finrank 𝕜 E = n) (hn : 0 < n) (hnM : n ≤ M)
-    (noPaddingEigs : eigsSize trim M n = n)
     (noClip : ∀ i, i + 1 < n → tol / 2 ≤ (colAt A M tol v n).beta i)
     (μ : 𝕜) (x : E) (hx : x ≠ 0) (heig : A x = μ • x) :
     (∃ a, a < n ∧ ⟪(colAt A M tol v n).q a, x⟫_𝕜 ≠ 0) ∧
     ∀ l, l < n → ∑ i ∈ range n,
-      ((eigsMatrix trim M n (colAt A M tol v n)).getD l #[]).getD i 0 * ⟪(colAt A M tol v n).q i, x⟫_𝕜 =
+      ((eigsMatrix trimPaddingInEigs M n (colAt A M tol v n)).getD l #[]).getD i 0 * ⟪(colAt A M tol v n).q i, x⟫_𝕜 =
         μ * ⟪(colAt A M tol v n).q l, x⟫_𝕜 := by
   have hinv := inv_colAfter A M v tol startNonzero tolPos n hnM
   have hcap := hinv.cap_column_zero dimE hn noClip
@@ -228,17 +228,16 @@ theorem C15_eigs_complete [FiniteDimensional 𝕜 E] (trim : Bool) (A : E →ₗ
   rw [← h2 l hl]
   apply sum_congr rfl
   intro i hi
-  rw [eigsMatrix_get trim n _ l i (by rw [noPaddingEigs]; exact hl)
-    (by rw [noPaddingEigs]; exact mem_range.mp hi)]
+  rw [eigsMatrix_get trimPaddingInEigs n _ l i (show l < n from hl)
+    (show i < n from mem_range.mp hi)]
 
-/-- the hypotheses of `C15_eigs_partial` are satisfiable non-trivially: the trimmed variant
-(`trim = true`) always satisfies `noPaddingEigs` -/
-example (M s : Nat) : eigsSize true M s = s := rfl
+/-- the matrix handed to `eig` has as many rows as steps were executed (the code as it is) -/
+example (M s : Nat) : eigsSize trimPaddingInEigs M s = s := rfl
 
-/-- clause `noPaddingEigs` is needed (defect (a)), for the untrimmed `arnoldi_eigs` of /repo
-(`trim = false`): `n = 1`, `A = [1]`, `v = [1]`, `max_iters = 2`: the `2 × 2` matrix handed to `eig`
+/-- regression lemma for the former defect (a): the *untrimmed* variant (`trim = false`, /repo before
+commit 0459ce4) on `n = 1`, `A = [1]`, `v = [1]`, `max_iters = 2` hands a `2 × 2` matrix to `eig` that
 has the eigenvalue `0`, which the invertible `A` has not -/
-theorem C15_noPaddingEigs_clause_needed :
+theorem C15_untrimmed_eigs_spurious_zero :
     (∃ y : Nat → ℝ, (∃ a, a < 2 ∧ y a ≠ 0) ∧ ∀ l, l < 2 →
       ∑ i ∈ range 2,
         ((eigsMatrix false 2 (runE (LinearMap.id : ℝ →ₗ[ℝ] ℝ) 1 2 (1 / 10) [(1 : ℝ)]).idx
@@ -258,4 +257,4 @@ theorem C15_noPaddingEigs_clause_needed :
 #print axioms C15_stopping
 #print axioms C15_eigs_partial
 #print axioms C15_eigs_complete
-#print axioms C15_noPaddingEigs_clause_needed
+#print axioms C15_untrimmed_eigs_spurious_zero
